@@ -34,6 +34,13 @@ def gen_case(rng):
     s.null = "-999.25"
     s.rows = [[str(100 * (i + 1) + j) + rng.choice(["", ".0", ".5"]) for j in range(c)] for i in range(r)]
     s.wrap = "YES" if wrapped else "NO"
+    if not wrapped and rng.random() < 0.2:
+        s.wrap = None                 # no WRAP item at all in ~Version: the file is read unwrapped by sniffing
+        if rng.random() < 0.6 and d >= 2:
+            # more declared curves than columns, with r*c a multiple of d (a re-deal would go unnoticed by reshape)
+            c = rng.choice([k for k in range(1, d)])
+            r = rng.choice([m for m in (d, 2 * d, 3 * d, 1, 2, 3) if (m * c) % d == 0] or [d])
+            s.rows = [[str(100 * (i + 1) + j) + rng.choice(["", ".0", ".5"]) for j in range(c)] for i in range(r)]
     s.eol = "\n"
     extra = {}
     if wrapped:
@@ -116,6 +123,7 @@ def run(ctx):
             cases.append(rm.coq_case(text, exp, engine=e, mnemonic_case="preserve"))
             meta.append((text, e))
         shapes.add((d, c, min(r, 3), s.wrap, s._wrap_k))
+        hist["no_wrap_item"] = hist.get("no_wrap_item", 0) + (s.wrap is None)
         hist["wrapped"] += s.wrap == "YES"
         hist["c_lt_d"] += c < d
         hist["c_eq_d"] += c == d
